@@ -7,7 +7,7 @@ RULE = ("Hypothesis-drawn cases (series kind incl. constant / monotone / alterna
         "thorough tier), price scale 1e-6 / 1e-3 / 100 / 25000 / 1e6, period 2..60, source type, matype) and, per case, a "
         "battery of checks against vf/ref/ta_ref.py: exact comparison (rtol 1e-9, atol 1e-9 x scale; 1e-6 x scale for the "
         "variance-by-moments family) wherever the textbook value is a function of a complete trailing window (sma, wma, "
-        "trima, stddev, var, bollinger, donchian, willr, stochf/stoch, cci, roc, mom, mfi, obv, typprice/medprice/avgprice/"
+        "trima, stddev, var, bollinger, donchian, willr, stochf/stoch, cci, roc/rocp/rocr/rocr100, mom, mfi, obv, trange, natr (= atr/close), typprice/medprice/avgprice/"
         "wclprice, midpoint, midprice); recurrence-step identities on jesse's own consecutive outputs (ema, wilders, atr, dm, "
         "macd signal/hist) and value-after-decay against a reference started from a different seed (ema, dema, tema, smma, "
         "wilders, rsi, atr, macd, keltner, adx) at the indices where the seed's influence is bounded below 1e-7 x scale; "
@@ -115,6 +115,13 @@ class Checker:
         self.close('cci', 'value', ta.cci(c, p, True), R.cci(c, p), 1e-6, rtol=1e-7)
         self.close('roc', 'value', ta.roc(c, p, st, True), R.roc(x, p), 1e-9, rtol=1e-9)
         self.close('mom', 'value', ta.mom(c, p, st, True), R.mom(x, p), a9)
+        lag = np.full(n, np.nan)
+        lag[p:] = x[:-p]
+        with np.errstate(divide='ignore', invalid='ignore'):
+            ratio = np.where(lag != 0, x / lag, np.nan)
+        self.close('rocp', 'value', ta.rocp(c, p, st, True), ratio - 1, 1e-9, rtol=1e-9)
+        self.close('rocr', 'value', ta.rocr(c, p, st, True), ratio, 1e-9, rtol=1e-9)
+        self.close('rocr100', 'value', ta.rocr100(c, p, st, True), ratio * 100, 1e-9, rtol=1e-9)
         if self.vscale > 0:
             self.close('mfi', 'value', ta.mfi(c, p, True), R.mfi(c, p), 1e-7)
         self.close('obv', 'value', ta.obv(c, True), R.obv(c), 1e-9 * self.vscale * n)
@@ -136,7 +143,12 @@ class Checker:
         step[1:] = (w[:-1] * (p - 1) + x[1:]) / p
         self.close('wilders', 'recurrence-step', w, step, a9)
         tr = R.true_range(c)
+        self.close('trange', 'value', ta.trange(c, True), tr, 1e-9 * S)
         at = np.asarray(ta.atr(c, p, True), dtype=float)
+        if n > p:
+            nat = np.asarray(ta.natr(c, p, True), dtype=float)
+            with np.errstate(divide='ignore', invalid='ignore'):
+                self.close('natr', 'value=atr/close*100', nat, at / c[:, 2] * 100, 1e-7, rtol=1e-8)
         step = np.full(n, np.nan)
         step[1:] = (at[:-1] * (p - 1) + tr[1:]) / p
         self.close('atr', 'recurrence-step', at, step, 1e-9 * S)
